@@ -207,12 +207,17 @@ class Crystal:
         trans = n[np.arange(len(f)), j].astype(int)
         return site, trans, dist[np.arange(len(f)), j]
 
-    def find_translation(self, pos_u, types, tol):
+    def find_translation(self, pos_u, types, tol, prefer=None):
         """A rigid translation t (ucell frame) such that pos_u - t lies on the crystal:
-        try to put atom 0 on every site of its type."""
+        try to put atom 0 on every site of its type (``prefer``: the site to try first, so that
+        a crystal with extra translational symmetry is not mapped onto itself with permuted sites)."""
         pos_u = np.asarray(pos_u, float)
         best = None
-        for s in np.nonzero(self.types == int(types[0]))[0]:
+        cand = [int(x) for x in np.nonzero(self.types == int(types[0]))[0]]
+        if prefer is not None and prefer in cand:
+            cand.remove(prefer)
+            cand.insert(0, prefer)
+        for s in cand:
             site_cart = self.sites[s] @ self.vects + self.origin
             t = pos_u[0] - site_cart
             site, _, dist = self.match(pos_u - t, types, tol)
